@@ -327,8 +327,7 @@ class TextTokenizationTensorMapper(TensorMapper):
         *,
         device: torch.device | None = None,
     ) -> dict[str, MultiNestedTensor]:
-        ser = ser.astype(str)
-        ser_list = ser.tolist()
+        ser_list = [str(value) for value in ser.tolist()]
 
         feat_dict = {}
         if self.batch_size is None:
@@ -417,8 +416,7 @@ class EmbeddingTensorMapper(TensorMapper):
     ) -> MultiEmbeddingTensor:
 
         if self.embedder is not None:
-            ser = ser.astype(str)
-            ser_list = ser.tolist()
+            ser_list = [str(value) for value in ser.tolist()]
             if self.batch_size is None:
                 values = self.embedder(ser_list)
             else:
